@@ -283,6 +283,67 @@ def r03b(model, ctx):
               "loads signal.init into every driven chunk", f"{XFRM}:{fr.lineno}")
 
 
+def control_inserter_paths(model):
+    """path analysis of one iteration of _ControlInserter.on_fragment's loop over the fragment's (domain, statements):
+    -> (every inserting path uses a collector created in that iteration and filled from that domain's statements,
+        inserting paths are guarded by nothing but "controlled and not comb", description).
+    Conditions this analysis does not know end the analysis (exit 2); conditions on the collector's or the statements'
+    emptiness are the recognised mistake (a domain holding only Print/Assert is skipped)."""
+    f = model.func(f"{XFRM}::_ControlInserter.on_fragment")
+    loops = [s for s in f.body if isinstance(s, ast.For) and "fragment.statements" in unparse(s.iter)]
+    need(len(loops) == 1, "_ControlInserter.on_fragment: the loop over fragment.statements was not found")
+    lp = loops[0]
+    names = [n.id for n in ast.walk(lp.target) if isinstance(n, ast.Name)]
+    need(len(names) >= 1, "_ControlInserter.on_fragment: loop variables not recognised")
+    dom = names[0]
+    stm = names[1] if len(names) > 1 else None
+    env = {}
+    for st in f.body:
+        if st is lp:
+            break
+        if isinstance(st, ast.Assign) and len(st.targets) == 1 and isinstance(st.targets[0], ast.Name) and \
+                not (isinstance(st.value, ast.Call) and dotted(st.value.func) == "LHSMaskCollector"):
+            env[st.targets[0].id] = st.value
+    from ..engine.symx import run_paths
+    paths = run_paths(list(lp.body), env=env)
+    allowed = {(f"{dom} == 'comb' or {dom} not in self.controls", False), (f"{dom} == 'comb'", False),
+               (f"{dom} not in self.controls", False), (f"{dom} in self.controls", True), (f"{dom} != 'comb'", True),
+               (f"{dom} != 'comb' and {dom} in self.controls", True), (f"{dom} in self.controls and {dom} != 'comb'", True),
+               (f"{dom} in self.controls.keys() - {{'comb'}}", True), (f"{dom} not in self.controls.keys() - {{'comb'}}", False),
+               (f"{dom} not in self.controls or {dom} == 'comb'", False)}
+    fresh_ok, skip_ok, how = True, True, []
+    n_insert = 0
+    for p in paths:
+        calls = [e for e in p.effects if isinstance(e, ast.Call) and unparse(e.func) == "self._insert_control"]
+        if not calls:
+            continue
+        n_insert += 1
+        c = calls[0]
+        arg = unparse(c.args[2]) if len(c.args) >= 3 else "?"
+        visited = any(isinstance(e, ast.Call) and unparse(e.func) == "LHSMaskCollector().visit_stmt" and stm is not None and
+                      [unparse(a) for a in e.args] == [stm] for e in p.effects[:p.effects.index(c)])
+        this_fresh = len(c.args) >= 3 and unparse(c.args[1]) == dom and \
+            arg == "LHSMaskCollector()" and visited
+        if not this_fresh:
+            # recognised mistakes: a collector that lives outside the iteration (a plain name), or not filled from `statements`
+            need(isinstance(c.args[2] if len(c.args) >= 3 else None, ast.Name) or arg == "LHSMaskCollector()",
+                 f"_ControlInserter.on_fragment: unrecognised collector argument `{arg}`")
+            fresh_ok = False
+            how.append(f"_insert_control(.., {arg}) visited={visited}")
+        for t, pol in p.conds_open():
+            key = (unparse(t), pol)
+            if key in allowed:
+                continue
+            txt = unparse(t)
+            if "lhs" in txt or (stm is not None and stm in txt) or "masks" in txt:
+                skip_ok = False
+                how.append(f"extra condition `{txt}` is {pol}")
+            else:
+                raise AnalysisError(f"_ControlInserter.on_fragment: unrecognised guard `{txt}` on the inserting path")
+    need(n_insert >= 1, "_ControlInserter.on_fragment: no path calls _insert_control")
+    return fresh_ok, skip_ok, "; ".join(how) or "fresh collector, guarded by controlled-and-not-comb only"
+
+
 def r03c(model, ctx):
     R = "R-03c"
     # ---- DomainRenamer: every domain-bearing field rewritten, each with a single simultaneous lookup
@@ -377,21 +438,11 @@ def r03c(model, ctx):
                   f"DomainCollector.{meth} must record value.domain", f"{XFRM}:{f2.lineno}")
 
     # ---- control inserters: per-domain fresh mask collector, all statement domains, memory ports
-    f = model.func(f"{XFRM}::_ControlInserter.on_fragment")
-    loops = [s for s in f.body if isinstance(s, ast.For) and "fragment.statements.items()" in unparse(s.iter)]
-    ok = len(loops) == 1
-    if ok:
-        body = loops[0].body
-        fresh = any(isinstance(s, ast.Assign) and unparse(s.value) == "LHSMaskCollector()" for s in body)
-        skip = any(isinstance(s, ast.If) and "domain not in self.controls" in unparse(s.test) and isinstance(s.body[0], ast.Continue)
-                   for s in body)
-        call = any("self._insert_control(new_fragment, domain, lhs_masks)" == unparse(s.value) for s in body if isinstance(s, ast.Expr))
-        visit = any("lhs_masks.visit_stmt(statements)" == unparse(s.value) for s in body if isinstance(s, ast.Expr))
-        ok = fresh and skip and call and visit
-    ctx.check(ok, R, "_ControlInserter.on_fragment", "fresh LHSMaskCollector per controlled domain",
+    fresh_ok, skip_ok, how = control_inserter_paths(model)
+    ctx.check(fresh_ok, R, "_ControlInserter.on_fragment", "fresh LHSMaskCollector per controlled domain",
               "for every controlled domain the inserter must build a *fresh* LHSMaskCollector from that domain's statements "
-              "(a collector shared across domains makes one domain's reset load another domain's registers) and call "
-              "_insert_control with it", f"{XFRM}:{f.lineno}")
+              f"(a collector shared across domains makes one domain's reset load another domain's registers) and call "
+              f"_insert_control with it; found {how}", f"{XFRM}:{model.func(f'{XFRM}::_ControlInserter.on_fragment').lineno}")
     # sim: memory port domains are part of the compiled domain set
     fc = model.func(f"{PYRTL}::_FragmentCompiler.__call__")
     t = unparse(fc)
